@@ -526,7 +526,7 @@ impl Prop for C07 {
         "C07"
     }
     fn rule(&self) -> &'static str {
-        "stateful, model-based: 2..4 flows that differ in exactly one tuple component (source port, source address, destination port), cookies learned from the responder's SYN-ACKs; histories of 1..24 ops: SYN with any flag set, data segments (PSH|ACK plus optional URG/FIN/SYN/RST/ECE/CWR/NS) with ack in {cookie+1, cookie, cookie+2, 0, 2^32-1, random, another flow's cookie+1, near misses cookie+1±d for d in 1..16 / 17..4096 / 4097..70000}, seq continuing / within 2 KiB of the wrap / random, payload 0..1400 bytes (garbage, protocol requests, request prefixes), TCP options; bare FIN|ACK, ACK, RST; bare ACK / RST / FIN|ACK whose ack is cookie-related (the handshake-completing ACK), SYNs carrying payload, unrelated noise (ARP/ICMP incl. ICMP errors quoting the responder's packets/UDP/raw/lying headers). Reference model: validated set; unvalidated flow and ack != cookie+1 => silence; otherwise exactly one reply with flags ACK (+PSH iff payload), seq = peer ack, ack = peer seq + payload length mod 2^32; FIN|ACK -> FIN|ACK ack seq+1; bare ACK/RST -> silence. Directed: a tuple whose cookie is 0xFFFFFFFF (ack = 0 branch), committed for quick and re-validated against the SYN-ACK, searched over 2^32 tuples in thorough. Non-trivial = the history holds both a rejected data segment on an unvalidated flow and an accepted one; distinct by case hash."
+        "stateful, model-based: 2..4 flows that differ in exactly one tuple component (source port, source address, destination port), cookies learned from the responder's SYN-ACKs; histories of 1..24 ops: SYN with any flag set, data segments (PSH|ACK plus optional URG/FIN/SYN/RST/ECE/CWR/NS) with ack in {cookie+1, cookie, cookie+2, 0, 2^32-1, random, another flow's cookie+1, near misses cookie+1±d for d in 1..16 / 17..4096 / 4097..70000}, seq continuing / within 2 KiB of the wrap / random, payload 0..1400 bytes (garbage, protocol requests, request prefixes), TCP options; bare FIN|ACK, ACK, RST; bare ACK / RST / FIN|ACK whose ack is cookie-related (the handshake-completing ACK), SYNs carrying payload, unrelated noise (ARP/ICMP incl. ICMP errors quoting the responder's packets/UDP/raw/lying headers). Reference model: validated set; unvalidated flow and ack != cookie+1 => silence; otherwise exactly one reply with flags ACK (+PSH iff payload), seq = peer ack, ack = peer seq + payload length mod 2^32; FIN|ACK -> FIN|ACK ack seq+1; bare ACK/RST -> silence. Directed: a tuple whose cookie is 0xFFFFFFFF (ack = 0 branch), committed for quick and re-validated against the SYN-ACK, searched over 2^32 tuples in thorough. Non-trivial = the history holds both a rejected data segment on an unvalidated flow and an accepted one; distinct by case hash. Shadow traffic (vf/shadow.rs): three cases in ten process, before every frame of the case, a sibling of that frame whose result is discarded — the same frame again, or one tuple element (source / destination port, source / destination address, source MAC), one payload bit or the payload length changed; TCP conversations are shadowed whole on a sibling flow validated with its own cookie; sound by the statement of C08, cases whose own flows meet a shadow tuple are excluded and counted. A quarter of the cases put an Ethernet trailer (1..200 bytes behind the end of the IP packet) on every TCP frame of their own flows; `odd` segments (any flags without SYN and without PSH+ACK together, with or without payload, acknowledgement field related to the cookie) must create no state."
     }
     fn run(&self, ctx: &mut RunCtx) {
         let n = ctx.share(ctx.tier.n(1_000_000, 10_000_000));
